@@ -62,7 +62,7 @@ Theorem C08_update_reproduces_data (a : 'cV[F]_n) (Q : 'M[F]_n) (ps : seq (perio
 Proof. exact: update_run. Qed.
 
 (* 4. deviation mode = level mode minus steady state *)
-Theorem C08_deviation_commutes (abar a : 'cV[F]_n) (Q : 'M[F]_n) (ps : seq (period M n nw)) (b : bool) :
+Theorem C08_deviation_commutes (abar a : 'cV[F]_n) (Q : 'M[F]_n) (ps : seq (period M n nw)) (b : bool) (vs : F) :
   all_steady abar ps ->
   let lev := krun a Q ps in
   let dev := krun (a - abar) Q [seq dev_period abar p | p <- ps] in
@@ -70,7 +70,7 @@ Theorem C08_deviation_commutes (abar a : 'cV[F]_n) (Q : 'M[F]_n) (ps : seq (peri
       (sback dev).1 = [seq dev_sper abar s | s <- (sback lev).1],
       update_all dev = [seq dev_sper abar s | s <- update_all lev],
       likelihood b dev = likelihood b lev &
-      contributions dev = contributions lev].
+      @contributions M n nw vs dev = @contributions M n nw vs lev].
 Proof. exact: deviation_commutes_run. Qed.
 
 Section Mapping.
